@@ -736,7 +736,7 @@ func runC18(c *Ctx) {
 	c.assume = append(c.assume,
 		"scalar-to-string conversions (ToString, strconv, NewFormattedFloat.Unicode, base64, byteSize) are oracles supplied by the harness",
 		"encoding/xml (strict) is the 'standard XML parser' of the predicate, completed by a scan for literal TAB/LF/CR in attribute values (XML 1.0 §3.3.3 normalisation, which encoding/xml does not perform); the Lean reference decoder P2.Xml.tokens is what the theorems use, and its token stream is compared with encoding/xml's on every case",
-		"ToHtml with custom == nil; custom HTML producers and FormatedFloat.MathMl write raw markup by design (WriteHTML) and are outside the property",
+		"custom HTML producers and FormatedFloat.MathMl write raw markup by design (WriteHTML): what they write is outside the property; one fixed well-formed custom renderer (ints as <b class=cst>) is used to check that the document around raw markup stays well-formed and otherwise equal to the plain one",
 		"table formats (style map entry 'table'), failing lazy elements and values outside V (nil, closures as data) are checked by the predicate only, not by the model")
 	n := c.Pick(9000, 600000)
 
@@ -970,6 +970,29 @@ func runC18(c *Ctx) {
 			if len(c.samples) < 6 && nontriv {
 				c.Sample(map[string]any{"tree": canon, "html": string(res)})
 			}
+			// the custom-renderer route: ints are rendered by a host function as well-formed markup (<b class="cst">N</b>),
+			// written through WriteHTML. The document must stay well-formed (the open/close bookkeeping of the writer also covers raw HTML)
+			if holds && strings.Contains(canon, "I") {
+				res2, _, err2, esc2 := safeToHtmlCustom(v, cs.max, cs.inline)
+				c.Count("html-custom-renderer")
+				rp2 := map[string]any{"value": canon, "maxListSize": cs.max, "inlineStyle": cs.inline, "html_custom": string(res2), "html_plain": string(res)}
+				switch {
+				case esc2 != nil:
+					c.Violation("html-panic-escapes", fmt.Sprintf("a panic inside ToHtml (custom renderer) is not contained: %v", esc2), rp2)
+				case err2 != nil:
+					c.Violation("html-custom-unexpected-error", "ToHtml with a custom renderer returns an error for an error-free value: "+err2.Error(), rp2)
+				default:
+					forest2, _, perr2 := parseForest([]byte(res2))
+					if perr2 != nil {
+						c.Violation("html-custom-not-wellformed", "well-formed markup of a custom renderer makes the document ill-formed: "+perr2.Error(), rp2)
+					} else if m := matchKids(exp, unwrapCustom(forest2), ""); m != nil {
+						// where the renderer is consulted relative to Format/Link wrappers is its own business: counted only
+						c.Count("html-custom-differs-from-plain(not a verdict)")
+					} else {
+						c.Count("html-custom-equals-plain")
+					}
+				}
+			}
 		}
 		if t.modelable() {
 			var cl []string
@@ -1067,6 +1090,56 @@ func safeToHtml(v value.Value, max int, inline bool) (res template.HTML, classes
 	}()
 	res, classes, err = export.ToHtml(v, max, nil, inline)
 	return
+}
+
+// safeToHtmlCustom: the custom renderer wraps every int into <b class="cst">…</b>
+func safeToHtmlCustom(v value.Value, max int, inline bool) (res template.HTML, classes []export.Class, err error, escaped any) {
+	defer func() {
+		if r := recover(); r != nil {
+			escaped = r
+		}
+	}()
+	custom := func(v value.Value) (template.HTML, bool, error) {
+		if i, ok := v.(value.Int); ok {
+			return template.HTML(`<b class="cst">` + strconv.FormatInt(int64(i), 10) + `</b>`), true, nil
+		}
+		return "", false, nil
+	}
+	res, classes, err = export.ToHtml(v, max, custom, inline)
+	return
+}
+
+// unwrapCustom replaces the elements written by the custom renderer by their text
+func unwrapCustom(forest []*XNode) []*XNode {
+	var res []*XNode
+	for _, n := range forest {
+		if !n.IsText && n.Name == "b" && len(n.Attrs) == 1 && n.Attrs[0] == [2]string{"class", "cst"} {
+			txt := ""
+			for _, k := range n.Kids {
+				if k.IsText {
+					txt += k.Text
+				}
+			}
+			if len(res) > 0 && res[len(res)-1].IsText {
+				res[len(res)-1] = tx(res[len(res)-1].Text + txt)
+			} else {
+				res = append(res, tx(txt))
+			}
+			continue
+		}
+		if n.IsText {
+			if len(res) > 0 && res[len(res)-1].IsText {
+				res[len(res)-1] = tx(res[len(res)-1].Text + n.Text)
+			} else {
+				res = append(res, n)
+			}
+			continue
+		}
+		c := *n
+		c.Kids = unwrapCustom(n.Kids)
+		res = append(res, &c)
+	}
+	return res
 }
 
 func truncate(s string, n int) string {
